@@ -675,6 +675,14 @@ theorem checkedPow_val (a : Int) (n : Nat) (r : Int) (h : checkedPow a n = some 
   · rename_i h0; cases h; rw [h0, Int.pow_zero]
   · rw [checkedPowLoop_val _ _ _ _ _ h, Int.one_mul]
 
+/-- whatever `checked_pow` returns passed a `checked_mul`, so it is inside i64. -/
+theorem checkedPow_inI64 (a : Int) (n : Nat) (r : Int) (h : checkedPow a n = some r) :
+    inI64 r = true := by
+  unfold checkedPow at h
+  split at h
+  · cases h; decide
+  · exact checkedPowLoop_inI64 _ _ _ _ _ h
+
 theorem binaryPowLoop_val (fuel : Nat) (n oddand : Int) (p : Nat) (hp : 1 ≤ p) (hf : p < 2 ^ fuel) :
     binaryPowLoop fuel n oddand p = oddand * n ^ p := by
   induction fuel generalizing n oddand p with
